@@ -290,10 +290,14 @@ class MetadataBase(object):
         :type f: file or str
         """
         self.validate()
+        # Serialize into memory first: nested objects are validated while they
+        # are serialized, and a failure must not truncate the destination.
+        parser = self._get_parser()
+        self.serialize(parser)
+        output = six.StringIO()
+        self.build_file(parser, output)
         with open_file_obj(f, "w") as f:
-            parser = self._get_parser()
-            self.serialize(parser)
-            self.build_file(parser, f)
+            f.write(output.getvalue())
 
     def dumps(self):
         """
